@@ -26,6 +26,9 @@ func init() {
 	gens["c05-padding"] = c05Padding
 	gens["c05-multikey"] = c05MultiKey
 	gens["c05-runes"] = c05Runes
+	gens["c05-numbers"] = c05Numbers
+	gens["c05-keypairs"] = c05KeyPairs
+	gens["c05-literals"] = c05Literals
 }
 
 // c05Long: LONG values - fixed-size buffers and limits inside the parser sit far above the
@@ -102,6 +105,123 @@ func c05Runes(c *enumx.Ctx) {
 				}
 				body := strings.ReplaceAll(sh, "%s", r)
 				parseBody(c, t, "audit(1700000000.123:42): "+body)
+			}
+		}
+	}
+}
+
+// c05Numbers: every numeric field x the arithmetic edges of every integer width (2^7 ... 2^64, +-1, both
+// signs, decimal, hex and octal spellings) x record-type classes.
+func c05Numbers(c *enumx.Ctx) {
+	var nums []string
+	for _, bits := range []uint{7, 8, 15, 16, 24, 31, 32, 53, 63, 64} {
+		for d := -1; d <= 1; d++ {
+			var v uint64
+			var s string
+			if bits == 64 {
+				s = []string{"18446744073709551615", "18446744073709551616", "18446744073709551617"}[d+1]
+			} else {
+				v = uint64(1)<<bits + uint64(int64(d))
+				s = fmt.Sprint(v)
+			}
+			nums = append(nums, s, "-"+s)
+			if bits < 64 {
+				nums = append(nums, fmt.Sprintf("%x", v), fmt.Sprintf("0x%x", v), fmt.Sprintf("0%o", v))
+			}
+		}
+	}
+	nums = append(nums, "-0", "+1", "00", "1e3", "0x", "-", "99999999999999999999999999")
+	fields := []string{"exit", "syscall", "arch", "a0", "a1", "a2", "a3", "items", "ppid", "pid", "auid", "uid", "gid", "euid", "ses", "sig", "argc", "inode", "mode", "dev", "ouid", "ogid", "major", "minor", "res", "success", "item", "nametype", "cap_fver", "id", "old-auid", "old_auid", "port", "family", "saddr"}
+	for _, f := range fields {
+		for _, n := range nums {
+			for _, t := range typeClasses {
+				if !c.Mine() {
+					continue
+				}
+				parseBody(c, t, "audit(1700000000.123:42): arch=c000003e syscall=2 success=no "+f+"="+n+" a0=1 pid=7 comm=\"x\"")
+				parseBody(c, t, "audit(1700000000.123:42): "+f+"="+n)
+			}
+		}
+	}
+	c.Sample("Parse(1300, ... exit=-9223372036854775808 ...) : Data/Tags/ToMapStr")
+}
+
+// c05KeyPairs: two keys of ONE record that differ only by '-' / '_' / '.' / letter case (old-auid and
+// old_auid, ...) with different values: whatever is reported for them is the same on every call - asked 24
+// times, because code that folds such keys together picks the winner in map order.
+func c05KeyPairs(c *enumx.Ctx) {
+	bases := []string{"old-auid", "new-auid", "old-ses", "a-b", "cap_fver", "obj_role", "sub-j", "x-y-z", "res", "auid", "old-enforcing", "old_prom"}
+	variant := func(k string) []string {
+		out := []string{strings.ReplaceAll(k, "-", "_"), strings.ReplaceAll(k, "_", "-"), strings.ReplaceAll(strings.ReplaceAll(k, "-", "."), "_", "."), strings.ToUpper(k), strings.ReplaceAll(k, "-", ""), "old " + strings.TrimPrefix(k, "old-"), k + "_", "_" + k}
+		return out
+	}
+	for _, k := range bases {
+		for _, k2 := range variant(k) {
+			if k2 == k {
+				continue
+			}
+			for _, vals := range [][2]string{{"4294967295", "1000"}, {"1000", "4294967295"}, {"a", "b"}, {"0", "1"}} {
+				for _, t := range []uint16{1006, 1300, 1112, 1400, 1305} {
+					if !c.Mine() {
+						continue
+					}
+					raw := "audit(1700000000.123:42): pid=1 uid=0 " + k + "=" + vals[0] + " " + k2 + "=" + vals[1] + " res=1"
+					c.Begin(func() string { return fmt.Sprintf("Parse(%d, %s) x24", t, strconv.Quote(raw)) })
+					c.Try("C05", func() {
+						m, err := auparse.Parse(auparse.AuditMessageType(t), raw)
+						if err != nil || m == nil {
+							return
+						}
+						first := fmt.Sprint(m.ToMapStr())
+						d1, _ := m.Data()
+						firstD := fmt.Sprint(d1)
+						for i := 0; i < 24; i++ {
+							if s := fmt.Sprint(m.ToMapStr()); s != first {
+								c.Report("C05 tomapstr-not-repeatable", fmt.Sprintf("ToMapStr() on Parse(%d, %q) gave %s and on call %d %s", t, raw, first, i+2, s), nil)
+								return
+							}
+							d, _ := m.Data()
+							if s := fmt.Sprint(d); s != firstD {
+								c.Report("C05 data-not-repeatable", fmt.Sprintf("Data() on Parse(%d, %q) gave %s and on call %d %s", t, raw, firstD, i+2, s), nil)
+								return
+							}
+						}
+						c.Nontrivial()
+					})
+				}
+			}
+		}
+	}
+}
+
+// c05Literals: token sequences of length <= 2 over the string literals of the tree's auparse package (plus
+// '=' and blank glue), as bodies of every record-type class: one input per literal the code reacts to, also
+// for literals a later edit introduces.
+func c05Literals(c *enumx.Ctx) {
+	hv := harvestedAuparse()
+	var lits []string
+	for _, l := range hv.Strings {
+		if len(l) <= 40 {
+			lits = append(lits, l)
+		}
+	}
+	for _, a := range lits {
+		for _, t := range typeClasses {
+			if !c.Mine() {
+				continue
+			}
+			parseBody(c, t, "audit(1700000000.123:42): "+a)
+			parseBody(c, t, "audit(1700000000.123:42): k="+a+" z=1")
+			parseBody(c, t, "audit(1700000000.123:42): "+a+"=v z=1")
+		}
+		for _, b := range lits {
+			if !c.Mine() {
+				continue
+			}
+			for _, t := range []uint16{1300, 1400, 1112} {
+				parseBody(c, t, "audit(1700000000.123:42): "+a+"="+b)
+				parseBody(c, t, "audit(1700000000.123:42): "+a+" "+b)
+				parseBody(c, t, "audit(1700000000.123:42): x="+a+b+" y=2")
 			}
 		}
 	}
